@@ -163,3 +163,28 @@ async def guarded_async(col, case, fn, *args):  # noqa: ANN001, ANN002, ANN201
 
         col.violation("check-or-library-crash",
                       {"exc": repr(e)[:300], "tb": traceback.format_exc()[-1500:]}, case)  # fmt: skip
+
+
+# ---------------------------------------------------------------------------------------
+# a case that has PROVED a violation but cannot get its process back (a thread of the library
+# under test is blocked for good and the event loop cannot finish): record, write the shard's
+# results and leave the process
+# ---------------------------------------------------------------------------------------
+ACTIVE: dict = {}
+
+
+def abort_shard(clause: str, detail: Any, case: Any) -> None:
+    import json
+    import os
+
+    col = ACTIVE.get("col")
+    out = ACTIVE.get("out")
+    if col is None or out is None:
+        raise RuntimeError(f"{clause}: {detail}")
+
+    col.violation(clause, detail, case)
+    col.count("shard_left_early_after_unrecoverable_violation")
+    with open(out, "w") as fh:
+        json.dump(col.to_json(), fh, default=repr)
+
+    os._exit(0)
